@@ -528,7 +528,7 @@ theorem execWith_good {cfg : Cfg} {pol : Policy} {i : Nat} {run : Run} {sub : Su
           fun _ => Keeps.refl _⟩
       | false =>
         simp only [execWith, hA, Bool.false_eq_true, if_false]
-        have := single_good a (.dest t) _ (dest_ok (bb := cfg.bb) hw hA t)
+        have := single_good a (.dest t) _ (dest_ok (cfg := cfg) hw hA t)
         exact ⟨this.1, this.2, fun h => by cases h⟩
     | reload t =>
       by_cases hr : nested = true ∧ reloadRefused pol i w t = true
@@ -538,6 +538,22 @@ theorem execWith_good {cfg : Cfg} {pol : Policy} {i : Nat} {run : Run} {sub : Su
       · simp only [execWith, hA, hr, if_false]
         have := execReload_good (bb := cfg.bb) hsub hw hA t
         exact ⟨this.1, this.2.1, fun _ => this.2.2⟩
+
+    | via t op' =>
+      cases hT : getO w.objs t with
+      | none =>
+        simp only [execWith, hA, hT]
+        exact ⟨hw, Chain.single (plain_seg_ok hw _ _ _ _ (by intro t h; cases h) (by intro t h; cases h)),
+          fun _ => Keeps.refl _⟩
+      | some T =>
+        simp only [execWith, hA, hT]
+        obtain ⟨h1, h2, h3⟩ := hrun w t op' hw
+        have hopx : ∀ x, Op.via t op' ≠ .exportUid x := by intro x h; cases h
+        have hops : ∀ x, Op.via t op' ≠ .seteuidStr x := by intro x h; cases h
+        have hs0 : StepOK cfg.bb w.objs w (seg w a (.via t op') none [] none true) :=
+          StepOK_congr (plain_seg_ok (bb := cfg.bb) hw a (.via t op') .nobj true hopx hops) rfl rfl rfl rfl rfl rfl rfl
+            (Or.inr hopx)
+        exact ⟨h1, Chain.cons hs0 (Chain.append h2 (Chain.single (plain_seg_ok h1 _ _ _ _ hopx hops))), fun _ => h3⟩
 
 theorem exec_good (cfg : Cfg) (pol : Policy) (i : Nat) : ∀ fuel, GoodExec cfg.bb (exec cfg pol i fuel) := by
   intro fuel
